@@ -84,6 +84,12 @@ func (h *Header) Unpack(buf []byte) error {
 			return fmt.Errorf("bad packet length: expected >=%d, got %d", longHeaderLength, len(buf))
 		}
 		h.pktLength = binary.BigEndian.Uint16(buf[1:3])
+		if h.pktLength <= 255 {
+			// HeaderLength() is derived from pktLength, so a 3-octet
+			// Length field announcing <=255 would be decoded with
+			// a 2-octet header.
+			return fmt.Errorf("bad packet length: 3-octet length field used for %d-octet packet", h.pktLength)
+		}
 		h.pktType = PacketType(buf[3])
 	} else {
 		// Short packet (<=255B)
